@@ -10,8 +10,8 @@ from harness.framework import Suite
 
 PID = "C18"
 LEAN_MODS = ["SwcVerif.Props.C18", "SwcVerif.Props.C05", "SwcVerif.Props.C18Gen"]
-TRANSLATE_ALGO = ["AlgoDsu", "AlgoCheckers", "AlgoNormalizer"]   # Gen/AlgoDsu.lean, Gen/AlgoCheckers.lean are regenerated from swcgeom/utils/dsu.py, swc_utils/base.py::get_dsu and swc_utils/checker.py::has_cyclic / is_bifurcate on every run
-DRIVER_FILES = ["SwcVerif/Model/AlgoRunDsu.lean", "SwcVerif/Model/AlgoRunNormalizer.lean"]
+TRANSLATE_ALGO = ["AlgoDsu", "AlgoCheckers", "AlgoNormalizer", "AlgoSort", "AlgoRepair"]   # Gen/AlgoDsu.lean, Gen/AlgoCheckers.lean are regenerated from swcgeom/utils/dsu.py, swc_utils/base.py::get_dsu and swc_utils/checker.py::has_cyclic / is_bifurcate on every run
+DRIVER_FILES = ["SwcVerif/Model/AlgoRunDsu.lean", "SwcVerif/Model/AlgoRunNormalizer.lean", "SwcVerif/Model/AlgoRunRepair.lean"]
 THEOREMS = [
     "C18.dsu_refines_partition", "C18.runOps_cons", "C18.invalid_rejected", "C18.hasCyclic_spec", "C18.isBifurcate_correct",
     "C18.jumpPass_stop", "C18.getDsu_fixpoint", "C18.getDsu_sorted_forest", "Dsu.jumpLoop_forest", "C18.getDsu_forest", "C18.forest_single_label_iff", "Dsu.jumpLoop_conn", "C18.getDsu_labels_are_components", "C18.repair_somas", "C18.repair_nearest_partial", "Dsu.linkLoop_inv", "C18.repair_nearest_tree", "Dsu.cycle_strict", "Dsu.jumpLoop_terminates", "C18.getDsu_total", "C18.isSingleRoot_total",
@@ -256,6 +256,8 @@ class Checkers(Suite):
                ("ggetdsu " + a, gen.ints(res["get_dsu"])),     # the definition generated from get_dsu on this run (translator cross-check)
                ("issorted " + a, str(res["sorted"])), ("bifurcate excl=1 " + a, tf(res["bif1"])), ("bifurcate excl=0 " + a, tf(res["bif0"])),
                ("gbifurcate excl=1 " + a, tf(res["bif1"])), ("gbifurcate excl=0 " + a, tf(res["bif0"]))]     # generated from is_bifurcate on this run
+        if not case.get("big"):
+            out.append(("gsingleroot " + a, tf(res["single_root"])))     # the definition generated from is_single_root on this run
         if "cyclic" in res:
             out.append(("hascyclic " + a, tf(res["cyclic"])))
             out.append(("ghascyclic " + a, tf(res["cyclic"])))     # the definition generated from has_cyclic on this run
@@ -343,6 +345,19 @@ class Repair(Suite):
             out.append({"class": f"roots{sum(1 for x in p if x == -1)}/base{base}", "ids": [i + base for i in range(n)],
                         "pids": [-1 if x == -1 else x + base for x in p], "types": [rng.randint(0, 7) for _ in range(n)],
                         "xyz": pts, "r": [rng.randint(1, 16) / 4 for _ in range(n)], "base": base})
+            if rng.random() < 0.25:
+                out[-1]["r"][rng.randrange(n)] = rng.choice([0.0, -0.25, 0.0])      # the third warning of read_swc
+                out[-1]["class"] += "/r<=0"
+            # the first root not in the first row (second warning of read_swc): row 0 changes places with a non-root row before every other
+            # root; the first root keeps the smallest id (see design_notes/session4/repair.md for what reset_index_ does otherwise)
+            c = out[-1]
+            others = [k for k in range(1, n) if c["pids"][k] == -1]
+            hi = min(others) if others else n
+            if hi > 1 and rng.random() < 0.2:
+                j = rng.randrange(1, hi)
+                for col in ("ids", "pids", "types", "xyz", "r"):
+                    c[col][0], c[col][j] = c[col][j], c[col][0]
+                c["class"] += "/root-late"
         return out
 
     def run(self, case):
@@ -365,6 +380,24 @@ class Repair(Suite):
                     res[str(mode)]["reset_id"] = df2["id"].tolist()
                 except Exception as e:  # noqa: BLE001
                     res[str(mode)] = {"exc": type(e).__name__, "msg": str(e)[:200]}
+        # the dispatch after parsing under every option (fix mode incl. an unknown one × sort_nodes × reset_index): columns + warnings
+        WARN = ["not a simple tree", "root is not the first node", "non-positive radius"]
+        res["dispatch"] = {}
+        for mode in (False, "somas", "nearest", "soma"):
+            for srt, rst in ((False, False), (False, True), (True, True)):
+                with warnings.catch_warnings(record=True) as w:
+                    warnings.simplefilter("always")
+                    try:
+                        df, _ = read_swc(io.StringIO(text), fix_roots=mode, sort_nodes=srt, reset_index=rst)
+                        ws = []
+                        for x in w:
+                            k = [i for i, t in enumerate(WARN) if str(x.message).startswith(t)]
+                            ws.append(k[0] if len(k) == 1 else -9)
+                        res["dispatch"][f"{mode}/{int(srt)}/{int(rst)}"] = {
+                            "id": df["id"].tolist(), "pid": df["pid"].tolist(), "type": df["type"].tolist(),
+                            "r4": [int(round(4 * float(v))) for v in df["r"].tolist()], "warn": ws}
+                    except Exception as e:  # noqa: BLE001
+                        res["dispatch"][f"{mode}/{int(srt)}/{int(rst)}"] = {"exc": type(e).__name__}
         # the copying spellings (no trailing underscore): the same tables, and the frame handed in is left alone
         try:
             from swcgeom.core.swc_utils import link_roots_to_nearest, mark_roots_as_somas, reset_index
@@ -391,6 +424,16 @@ class Repair(Suite):
         if "exc" not in res.get("nearest", {"exc": 1}) and nroots > 1:
             xs, ys, zs = zip(*case["xyz"])
             out.append((f"nearest {a} x={gen.ints(xs)} y={gen.ints(ys)} z={gen.ints(zs)}", gen.ints(res["nearest"]["pid"])))
+            # the definition generated from link_roots_to_nearest_ on this run (the callback `norm` = squared lattice distances)
+            out.append((f"gnearest {a} x={gen.ints(xs)} y={gen.ints(ys)} z={gen.ints(zs)}", gen.ints(res["nearest"]["pid"])))
+        # the tail of read_swc (from `# fix swc`) as generated on this run, under every option
+        xs, ys, zs = zip(*case["xyz"])
+        for key, r in res.get("dispatch", {}).items():
+            mode, srt, rst = key.split("/")
+            line = (f"greadfix {a} types={gen.ints(case['types'])} rs={gen.ints([int(round(4 * v)) for v in case['r']])} "
+                    f"x={gen.ints(xs)} y={gen.ints(ys)} z={gen.ints(zs)} mode={'F' if mode == 'False' else mode} sort={srt} reset={rst}")
+            want = "E" if "exc" in r else " / ".join(gen.ints(r[c]) for c in ("id", "pid", "type", "r4", "warn"))
+            out.append((line, want))
         return out
 
     def oracle(self, case, res):
